@@ -3,7 +3,7 @@ CONSTANT Set = "C17"
 CONSTANT NLines = 1
 CONSTANT Fuel = 80
 CONSTANT Size = 1
-CONSTANT VFuel = 3000
+CONSTANT VFuel = 2500
 INIT PInit
 NEXT PNext
 INVARIANT PRefines
